@@ -8,6 +8,11 @@ REGISTRY = {}        # qualname -> Contract
 LAYOUTS = {}         # class qualname -> {field: desc}
 SPEC_MODULES = []    # paths of spec-function modules (interpreted AND importable)
 LEMMAS = {}          # name -> Lemma
+MODULAR = set()      # qualnames that callers use through their contract (not inlined)
+
+
+def modular(qualname):
+    MODULAR.add(qualname)
 
 
 class Clause:
